@@ -50,6 +50,28 @@ CLAIMS["C05"] = (
     "DESIGN.md section 5 C05",
 )
 
+CLAIMS["C07"] = (
+    "who-may-load/call sweep, must/may dataflow on the closer's CFG, guard truth table of the callback site",
+    "Decides statically: the stop-callback value is loaded and called at exactly one site, in the closer, after CLOSED is set (R1); that "
+    "site's guard, as a truth table over {already closed, callback present, was-connected}, is reached exactly - and then on every path - "
+    "when the connection was connected, with was-connected snapshotted before the state change (R2); the graceful marker has exactly the "
+    "three specified writers, each before anything that can close or write, is never reset, and is the callback's argument (R3). With C05 "
+    "(closed is final, closer idempotent) this is the safety part of the statement under M1-M5; that a connected session is eventually "
+    "closed (liveness) is not decided.",
+    "DESIGN.md section 5 C07",
+)
+CLAIMS["C08"] = (
+    "derived resource inventory + path-sensitive (disjunctive) release analysis of the closer; local-timer pairing with flag tracking; validated-not-closed dataflow at commit/arm/delivery sites; who-may-call for writes",
+    "Decides statically under M1-M5: every resource attribute of the connection (timers, socket, helper, futures, waiter set - derived "
+    "from the annotations) is released on every path through the closer, helper close() closes and drops transport/writer (R1); every "
+    "locally bound timer handle is cancelled or has fired on every exit (R2); nothing is committed to the object and no keep-alive timer "
+    "is armed unless the connection is known not closed since the last suspension (R3); awaited futures are registered with what the "
+    "closer resolves before the first suspension (R4); transport writes only behind the handshake-complete gate, raw writer access only "
+    "in the frame helpers (R5); the dispatcher looks up subscribers only when the connection is known not closed, for both receive loops "
+    "(R6). Necessary conditions of the property in package code; leaks inside asyncio/OS objects are not decided.",
+    "DESIGN.md section 5 C08",
+)
+
 UNDER_CONSTRUCTION = "rule set not built yet in this round (see DESIGN.md section 5 for the planned static rules)"
 
 NOT_APPLICABLE = {}
